@@ -9,7 +9,8 @@
 EXTENDS CellGeom, Json, SequencesExt
 
 CONSTANTS SegEvery, SegOff,        \* segments (dir, line, a, b) with number % SegEvery = SegOff
-          PairEvery, PairOff       \* probe pairs for ShrinkToFit
+          PairEvery, PairOff,      \* probe pairs for ShrinkToFit
+          UlpN, UlpSeed            \* boundary-ulp class: cases per face and level (0 = off), seed
 
 VARIABLE t
 Kind == t[1]
@@ -19,6 +20,7 @@ Init ==
     \/ t \in {<<"cell", l>> : l \in 0..L}
     \/ t \in {<<"seg", dir>> : dir \in 0..1}
     \/ t \in {<<"pair", l>> : l \in 0..L}
+    \/ t \in {<<"ulp", f>> : f \in IF UlpN > 0 THEN 0..5 ELSE {}}
 SegNo(line, a, b) == (line * VN + a) * VN + b
 Next ==
     \/ Kind = "cell" /\ Len(t) = 2 /\ t' \in {<<"cell", t[2], k>> : k \in 0..(P4(t[2]) - 1)}
@@ -33,6 +35,11 @@ Next ==
          IN  t' \in {<<"pair", t[2], k, x, y>> : k \in {z \in 0..(P4(t[2]) - 1) : z % PairEvery = 0},
                                                  x \in pick, y \in pick}
          /\ t'[4] <= t'[5]
+    \* boundary-ulp class: face, level of the boundary, which boundary (a hashed k in 0..2^level) -
+    \* levels 29 and 30, whose boundary coordinates are not exactly representable, get most cases
+    \/ Kind = "ulp" /\ Len(t) = 2 /\
+         t' \in {<<"ulp", t[2], lvl, x>> : lvl \in 1..30, x \in 1..UlpN}
+         /\ (t'[3] >= 29 \/ t'[4] <= (UlpN + 7) \div 8)
 
 IsCell == Kind = "cell" /\ Len(t) = 3
 C == <<t[2], t[3]>>
@@ -82,8 +89,34 @@ EmitPair ==
                                  ihi |-> IF I(d1) > I(d2) THEN I(d1) ELSE I(d2),
                                  jlo |-> IF J(d1) < J(d2) THEN J(d1) ELSE J(d2),
                                  jhi |-> IF J(d1) > J(d2) THEN J(d1) ELSE J(d2)])>>)
+\* ---- boundary-ulp class -----------------------------------------------------------
+\* Points are placed (by the harness) on the cell boundary st = k / 2^level of a face and a few
+\* ulps beside it.  Whatever leaf cell the library assigns to such a point p, the point must be
+\* contained in that leaf and, by the prefix relation of the model, in each of its 30 ancestors
+\* ("a cell contains every point whose leaf cell lies within its id range"; cells are closed, and
+\* Cell.ContainsPoint documents that CellFromPoint(p).ContainsPoint(p) is always true).
+Hash(a) == (a * 1103 + 12347) % 65537
+UlpCase ==
+    LET h1 == Hash(Hash(t[2] * 7919 + t[3] * 31 + t[4] * 977 + UlpSeed))
+        h2 == Hash(h1 + 1)
+        h3 == Hash(h2 + 2)
+        h4 == Hash(h3 + 3)
+    IN  [op |-> "c12ulp", face |-> t[2], level |-> t[3],
+         \* every 5th case sits on the face boundary or next to it
+         k |-> IF t[4] % 5 = 0 THEN (IF h1 % 4 = 0 THEN 0 ELSE IF h1 % 4 = 1 THEN P2(t[3])
+                                     ELSE IF h1 % 4 = 2 THEN 1 ELSE P2(t[3]) - 1)
+               ELSE ((h1 % 16384) * 65536 + h2) % (P2(t[3]) + 1),
+         \* the harness sweeps count consecutive boundaries k, k+1, ... (whether a boundary is affected
+         \* by rounding is a property of the boundary: many boundaries matter more than many nudges)
+         count |-> IF t[3] >= 29 THEN 64 ELSE 4,
+         k2 |-> ((h3 % 16384) * 65536 + h4) % P2(30),
+         axis |-> h4 % 2, other |-> h3 % 3,
+         contained |-> [l \in 1..31 |-> TRUE]]          \* the leaf (level 30) and its ancestors 0..29
+EmitUlp == PrintT(<<"CASE", ToJson(UlpCase)>>)
+
 Emit ==
     IF Kind = "root" THEN EmitRoot
+    ELSE IF Kind = "ulp" /\ Len(t) = 4 THEN EmitUlp
     ELSE IF IsCell THEN EmitCell
     ELSE IF Kind = "seg" /\ Len(t) = 5 THEN EmitSeg
     ELSE IF Kind = "pair" /\ Len(t) = 5 THEN EmitPair
